@@ -699,12 +699,27 @@ def c09_range_hook(driver):
             continue
         pairs = []
         walk_ranges(payload, ctx_uri, pairs)
+        qual = ""
+        try:
+            m_ = driver.ops[k]["m"]
+            pos_ = m_["params"]["position"]
+            path_ = os.path.normpath(frames.uri_decode(m_["params"]["textDocument"]["uri"]))
+            ls_ = driver.docs[path_]["lines"] if path_ in driver.docs else \
+                model.lines_from_disk(driver.told.get(path_, b""))
+            import re as _re
+
+            if ls_ and 0 <= pos_["line"] < len(ls_) and _re.match(r"\s*include\s*['\"]", ls_[pos_["line"]], _re.I):
+                qual = " on an INCLUDE statement"
+        except Exception:
+            pass
         for uri, rng, key in pairs:
             bad = _range_bad(driver, uri, rng)
             if bad:
-                violation("C09", "range", f"{what.split('/')[-1]}: {bad[0]}",
-                          f"{bad[1]} uri={uri} range={rng} :: {_req_desc(driver, k)}", op=k)
-                return
+                site = f"{what.split('/')[-1]}{qual}: {bad[0]}"
+                if not any(v["prop"] == "C09" and v["site"] == site for v in S.violations):
+                    violation("C09", "range", site,
+                              f"{bad[1]} uri={uri} range={rng} :: {_req_desc(driver, k)}", op=k)
+                break
 
 
 def _range_bad(driver, uri, rng):
